@@ -367,5 +367,213 @@ Section Ren.
 
     Lemma k_settle_fuel s : settle_fuel (embk s) = settle_fuel s.
     Proof. unfold settle_fuel. cbn [units ch_in inq waits embk]. rewrite map_length. reflexivity. Qed.
+
+    (** ** callbacks *)
+    Lemma k_nth_cb s i : nth_error (cbs (embk s)) (nc + i) = option_map ren_cb (nth_error (cbs s) i).
+    Proof.
+      cbn [cbs embk]. rewrite nth_error_app_shift. destruct (nth_error (cbs s) i) as [c|] eqn:E.
+      - apply map_nth_error. exact E.
+      - apply nth_error_None. rewrite map_length. apply nth_error_None. exact E.
+    Qed.
+
+    Lemma k_upd_cbs s i (f : cb -> cb) : (forall c, f (ren_cb c) = ren_cb (f c)) ->
+      upd_nth (nc + i) f (cbs (embk s)) = ocb ++ map ren_cb (upd_nth i f (cbs s)).
+    Proof. intros Hf. cbn [cbs embk]. rewrite upd_nth_app_shift. f_equal. apply upd_nth_map. exact Hf. Qed.
+
+    Lemma k_complete_cb i r s : complete_cb (nc + i) r (embk s) = embkp (complete_cb i r s).
+    Proof.
+      unfold complete_cb. rewrite k_nth_cb. destruct (nth_error (cbs s) i) as [c|]; cbn [option_map]; [|reflexivity].
+      unfold embkp. cbn [fst snd]. f_equal.
+      - apply state_ext; try reflexivity.
+        + apply (assoc_del_ren (Nat.add nc)).
+        + apply k_upd_cbs. reflexivity.
+      - change (cb_ret (ren_cb c)) with (cb_ret c). destruct (cb_ret c); reflexivity.
+    Qed.
+
+    Lemma complete_cb_push i r s : c_push (fst (complete_cb i r s)) = c_push s.
+    Proof. unfold complete_cb. destruct (nth_error (cbs s) i); reflexivity. Qed.
+
+    Lemma reid_fields g m : j_method (reid g m) = j_method m /\ j_error (reid g m) = j_error m /\
+      j_result (reid g m) = j_result m /\ has_reply_fields (reid g m) = has_reply_fields m.
+    Proof. unfold reid. destruct (is_req_or_notif m); repeat split. Qed.
+
+    Lemma k_filter_batch : forall ms s keep acc, c_push s = true -> forallb shaped_msg ms = true ->
+      filter_batch (map ren_msg ms) (embk s) keep (map ren_obs acc) =
+      let '(s1, k, o) := filter_batch ms s keep acc in (embk s1, k, map ren_obs o).
+    Proof.
+      induction ms as [|m r IH]; intros s keep acc Cp Sh; cbn [filter_batch map]; [reflexivity|].
+      cbn [forallb] in Sh. apply andb_true_iff in Sh as [Sm Sr].
+      unfold ren_msg at 1. rewrite reid_req. fold ren_msg.
+      destruct (is_req_or_notif m) eqn:R.
+      - assert (E : ren_msg m = m) by (unfold ren_msg, reid; rewrite R; reflexivity). rewrite E. apply IH; auto.
+      - assert (Eid : fix_id (j_id (ren_msg m)) = ren (fix_id (j_id m))).
+        { unfold ren_msg, reid. rewrite R. cbn [j_id]. apply fix_id_ren. }
+        destruct (reid_fields ren m) as (Fm & Fe & Fr & Fh). fold ren_msg in Fm, Fe, Fr, Fh.
+        rewrite Eid, Fm, Fe, Fr, Fh. change (calls (embk s)) with (map sh_call (calls s)). unfold sh_call. rewrite assoc_ren.
+        destruct (assoc (fix_id (j_id m)) (calls s)) as [i|]; cbn [option_map].
+        + rewrite k_complete_cb.
+          match goal with |- context [complete_cb i ?v s] =>
+            pose proof (complete_cb_push i v s) as Cp1; destruct (complete_cb i v s) as [s1 os1] end.
+          cbn [fst] in Cp1. cbn [embkp fst snd]. rewrite <- map_app. apply IH; [congruence|auto].
+        + change (c_push (embk s)) with (c_push s). rewrite Cp. cbn [andb].
+          destruct (is_nil (j_method m) && has_reply_fields m) eqn:RS; [apply IH; auto|].
+          assert (E : ren_msg m = m).
+          { apply reid_same. apply ren_not_pos. unfold shaped_msg, reply_shaped in Sm. rewrite R, RS in Sm.
+            cbn [orb] in Sm. apply negb_true_iff in Sm. exact Sm. }
+          rewrite E. apply IH; auto.
+    Qed.
+
+    Lemma k_filter_batch0 ms s : c_push s = true -> forallb shaped_msg ms = true ->
+      filter_batch (map ren_msg ms) (embk s) [] [] =
+      let '(s1, k, o) := filter_batch ms s [] [] in (embk s1, k, map ren_obs o).
+    Proof. intros Cp Sh. exact (k_filter_batch ms s [] [] Cp Sh). Qed.
+
+    Lemma k_read_cs f s : c_push s = true -> shaped_feed f = true -> read_cs (ren_feed f) (embk s) = embkp (read_cs f s).
+    Proof.
+      intros Cp Sh. destruct f as [i|i|sc]; unfold read_cs; unfold ren_feed; cbn [map_feed].
+      1,2: change (running (embk s)) with (running s); destruct (negb (running s)); [reflexivity|];
+           destruct i as [|b ms]; [reflexivity|]; destruct ms as [|m ms]; [reflexivity|];
+           cbn [map_in]; change (map (reid ren) (m :: ms)) with (map ren_msg (m :: ms));
+           cbn [shaped_feed shaped_in] in Sh; cbn [map];
+           change (ren_msg m :: map ren_msg ms) with (map ren_msg (m :: ms));
+           rewrite (k_filter_batch0 (m :: ms) s Cp Sh); destruct (filter_batch (m :: ms) s [] []) as [[s1 keep] os1];
+           destruct keep as [|k0 kr]; [reflexivity|]; cbv zeta;
+           match goal with |- (if ?x then _ else _) = embkp (if ?y then _ else _) => change x with y; destruct y end;
+           unfold embkp; cbn [fst snd]; rewrite ?map_app; reflexivity.
+      rewrite k_stop_locked. destruct (stop_locked sc s) as [s2 os2]. reflexivity.
+    Qed.
+
+    Lemma k_grant0 fuel s : grant fuel (embk s) [] = (embk (fst (grant fuel s [])), map ren_obs (snd (grant fuel s []))).
+    Proof. exact (k_grant fuel s []). Qed.
+
+    (** ** critical sections *)
+    (* (iii) LCbCtxEnd is not used with the operation number of an old record *)
+    Definition ops_fresh (l : label) : bool :=
+      match l with LCbCtxEnd n _ => forallb (fun c => negb (cb_op c =? n)) ocb | _ => true end.
+    Definition rd_shaped (s : state) : bool := match rd s with RHold f => shaped_feed f | _ => true end.
+
+    Lemma add_eqb_l j i : (nc + j =? nc + i) = (j =? i).
+    Proof. destruct (Nat.eqb_spec j i), (Nat.eqb_spec (nc + j) (nc + i)); auto; lia. Qed.
+
+    Lemma k_step_raw s l : c_push s = true -> 1 <= call_id s -> rd_shaped s = true -> ops_fresh l = true ->
+      step_raw (embk s) (renk_label l) = option_map embkp (step_raw s l).
+    Proof.
+      intros Cp Ci Rs Of. destruct l; cbn [renk_label step_raw].
+      - (* LStart *)
+        change (running (embk s)) with (running s). change (wg (embk s)) with (wg s).
+        destruct (negb (running s) && (wg s =? 0)); reflexivity.
+      - (* LFeed *)
+        cbn [option_map]. unfold embkp. cbn [fst snd map]. f_equal. f_equal. apply state_ext; try reflexivity.
+        cbn. rewrite map_app. reflexivity.
+      - reflexivity.
+      - (* LGate *)
+        change (tasks (embk s)) with (tasks s). destruct (find_idx _ 0 (tasks s)) as [k|]; [|reflexivity].
+        destruct (nth_error (tasks s) k) as [t|]; reflexivity.
+      - reflexivity.
+      - reflexivity.
+      - change (c_push (embk s)) with (c_push s). destruct (c_push s); reflexivity.
+      - reflexivity.
+      - (* LCbCtxEnd *)
+        cbn [ops_fresh] in Of.
+        assert (F : find_idx (fun c => cb_op c =? n) 0 (cbs (embk s)) =
+                    option_map (Nat.add nc) (find_idx (fun c => cb_op c =? n) 0 (cbs s))).
+        { cbn [cbs embk]. rewrite find_idx_app_none.
+          - rewrite find_idx_map. cbn [Nat.add]. replace nc with (nc + 0) at 1 by lia.
+            rewrite find_idx_add. reflexivity.
+          - intros c Ic. rewrite forallb_forall in Of. apply negb_true_iff. apply Of. exact Ic. }
+        rewrite F. destruct (find_idx _ 0 (cbs s)) as [i|]; cbn [option_map]; [|reflexivity].
+        unfold embkp. cbn [fst snd map]. f_equal. f_equal. apply state_ext; try reflexivity.
+        apply k_upd_cbs. intros c. change (cb_cancelled (ren_cb c)) with (cb_cancelled c).
+        destruct (cb_cancelled c); reflexivity.
+      - (* LRelRead *)
+        unfold rd_shaped in Rs. change (rd (embk s)) with (ren_rd (rd s)). destruct (rd s); try reflexivity.
+        cbn [ren_rd option_map]. f_equal. apply k_read_cs; auto.
+      - (* LRelNext *)
+        change (dp (embk s)) with (dp s). destruct (dp s); try reflexivity. rewrite k_dequeue. reflexivity.
+      - (* LRelBarrier *)
+        change (dp (embk s)) with (dp s). destruct (dp s); reflexivity.
+      - (* LRelAcquire *)
+        change (tasks (embk s)) with (tasks s). destruct (nth_error (tasks s) k) as [t|]; [|reflexivity].
+        destruct (t_st t); try reflexivity.
+        change (unit_running (embk s) t) with (unit_running s t). destruct (negb (unit_running s t)); [reflexivity|].
+        destruct (t_cancelled t); [reflexivity|].
+        change (sem_free (embk s)) with (sem_free s). change (sem_wait (embk s)) with (sem_wait s).
+        destruct (sem_free s) as [|fr]; [reflexivity|]. destruct (sem_wait s) as [|j r]; [|reflexivity].
+        destruct (t_builtin t); reflexivity.
+      - (* LRelHandled *)
+        change (tasks (embk s)) with (tasks s). destruct (nth_error (tasks s) k) as [t|]; [|reflexivity].
+        destruct (t_st t) as [| | | |o|]; try reflexivity.
+        set (s1 := set_task k (fun t0 => t0 <| t_st := TDone (body_of_outcome t0 o) |>) s <| sem_free ::= S |>).
+        change (set_task k (fun t0 => t0 <| t_st := TDone (body_of_outcome t0 o) |>) (embk s) <| sem_free ::= S |>)
+          with (embk s1).
+        change (sem_wait (embk s1)) with (sem_wait s1). rewrite k_grant0.
+        destruct (grant (S (length (sem_wait s1))) s1 []) as [s2 os2]. cbn [fst snd].
+        change (nbar (embk s2)) with (nbar s2).
+        destruct (is_note t); [destruct (nbar s2)|]; cbn [option_map]; unfold embkp; cbn [fst snd]; rewrite ?map_app;
+          reflexivity.
+      - (* LRelDeliver *)
+        change (units (embk s)) with (units s). destruct (nth_error (units s) u) as [un|]; [|reflexivity].
+        destruct (u_st un); try reflexivity.
+        change (unit_tasks (embk s) u) with (unit_tasks s u). rewrite k_release_ids.
+        destruct (negb (u_chok un)); reflexivity.
+      - (* LRelStop *)
+        change (ops (embk s)) with (ops s). destruct (find_op n (ops s)) as [[n0|n0 id|n0 w m p]|]; try reflexivity.
+        change (embk s <| ops ::= del_op n |>) with (embk (s <| ops ::= del_op n |>)). rewrite k_stop_locked.
+        destruct (stop_locked SCStop (s <| ops ::= del_op n |>)) as [s2 os2].
+        cbn [option_map]. unfold embkp. cbn [fst snd]. rewrite map_app. reflexivity.
+      - (* LRelCancel *)
+        change (ops (embk s)) with (ops s). destruct (find_op n (ops s)) as [[n0|n0 id|n0 w m p]|]; try reflexivity.
+        change (embk s <| ops ::= del_op n |>) with (embk (s <| ops ::= del_op n |>)).
+        change (used (embk (s <| ops ::= del_op n |>))) with (used (s <| ops ::= del_op n |>)).
+        destruct (assoc id (used (s <| ops ::= del_op n |>))) as [owner|]; [rewrite k_cancel_task|]; reflexivity.
+      - (* LRelPush *)
+        change (ops (embk s)) with (ops s). destruct (find_op n (ops s)) as [[n0|n0 id|n0 w m p]|]; try reflexivity.
+        set (s1 := s <| ops ::= del_op n |>). change (embk s <| ops ::= del_op n |>) with (embk s1).
+        change (running (embk s1)) with (running s1). destruct (negb (running s1)); [reflexivity|].
+        change (send_fail (embk s1)) with (send_fail s1).
+        destruct w.
+        2:{ cbn [option_map]. unfold embkp. cbn [fst snd map ren_obs]. rewrite ren_nil. reflexivity. }
+        change (call_id (embk s1)) with (dk + call_id s1).
+        assert (Cj : exists j, call_id s1 = S j) by (exists (call_id s - 1); change (call_id s1) with (call_id s); lia).
+        destruct Cj as (j & Cj). rewrite Cj. rewrite <- (ren_dec j).
+        destruct (send_fail s1).
+        + cbn [option_map]. unfold embkp. cbn [fst snd map ren_obs]. f_equal. f_equal.
+          apply state_ext; try reflexivity.
+          * cbn. lia.
+          * cbn. rewrite map_app, app_assoc. reflexivity.
+        + change (ended (embk s1)) with (ended s1).
+          cbn [option_map]. unfold embkp. cbn [fst snd map ren_obs]. f_equal. f_equal.
+          apply state_ext; try reflexivity.
+          * cbn. rewrite app_length, map_length. f_equal.
+            apply (assoc_del_ren (Nat.add nc)).
+          * cbn. lia.
+          * cbn. rewrite map_app, app_assoc. f_equal. cbn [map]. f_equal.
+            destruct (find (fun e => fst e =? n) (ended s)) as [[? ?]|]; reflexivity.
+      - (* LRelCbWatch *)
+        rewrite k_nth_cb. destruct (nth_error (cbs s) c) as [cb0|]; [|reflexivity]. cbn [option_map].
+        change (cb_watch (ren_cb cb0)) with (cb_watch cb0). destruct (cb_watch cb0); try reflexivity.
+        assert (E1 : embk s <| cbs ::= upd_nth (nc + c) (fun c0 => c0 <| cb_watch := WDone |>) |> =
+                     embk (s <| cbs ::= upd_nth c (fun c0 => c0 <| cb_watch := WDone |>) |>)).
+        { apply state_ext; try reflexivity. apply k_upd_cbs. reflexivity. }
+        rewrite E1. set (s1 := s <| cbs ::= upd_nth c (fun c0 => c0 <| cb_watch := WDone |>) |>).
+        change (calls (embk s1)) with (map sh_call (calls s1)). change (cb_id (ren_cb cb0)) with (ren (cb_id cb0)).
+        unfold sh_call. rewrite assoc_ren.
+        destruct (assoc (cb_id cb0) (calls s1)) as [j|]; cbn [option_map]; [|reflexivity].
+        change (cb_slot (ren_cb cb0)) with (cb_slot cb0). destruct (cb_slot cb0); [reflexivity|].
+        rewrite add_eqb_l. destruct (j =? c); [|reflexivity].
+        change (cb_ctx (ren_cb cb0)) with (cb_ctx cb0).
+        destruct (match cb_ctx cb0 with Some WDeadline => _ | _ => _ end) as [code msg].
+        cbn [option_map]. f_equal. apply k_complete_cb.
+    Qed.
+
+    (** ** windows *)
+    Theorem k_step s l : c_push s = true -> 1 <= call_id s -> rd_shaped s = true -> ops_fresh l = true ->
+      step (embk s) (renk_label l) = option_map embkp (step s l).
+    Proof.
+      intros Cp Ci Rs Of. unfold step. change (crash (embk s)) with (crash s). destruct (crash s); [reflexivity|].
+      rewrite k_step_raw by auto. destruct (step_raw s l) as [[s1 os]|]; cbn [option_map embkp fst snd]; [|reflexivity].
+      change (crash (embk s1)) with (crash s1). destruct (crash s1); [reflexivity|].
+      rewrite k_settle_fuel, k_settle. reflexivity.
+    Qed.
   End K.
 End Ren.
